@@ -169,6 +169,16 @@ SPECS = [
     dict(name="fit_file_block", py="aspire.py:Aspire.fit", mode="file", part="fit"),
     dict(name="sample_pre_block", py="aspire.py:Aspire.sample_posterior", mode="file", part="sample_pre"),
     dict(name="sample_post_block", py="aspire.py:Aspire.sample_posterior", mode="file", part="sample_post"),
+    # the conversion methods of the sample containers (tenth vocabulary: conv2lean.py)
+    dict(name="conv_post_init", py="samples.py:BaseSamples.__post_init__", mode="conv", part="post_init"),
+    dict(name="base_to_numpy", py="samples.py:BaseSamples.to_numpy", mode="conv", part="method", cls="BaseSamples", method="to_numpy"),
+    dict(name="base_to_namespace", py="samples.py:BaseSamples.to_namespace", mode="conv", part="method", cls="BaseSamples", method="to_namespace"),
+    dict(name="base_from_samples", py="samples.py:BaseSamples.from_samples", mode="conv", part="method", cls="BaseSamples", method="from_samples"),
+    dict(name="samples_to_namespace", py="samples.py:Samples.to_namespace", mode="conv", part="method", cls="Samples", method="to_namespace"),
+    dict(name="samples_to_numpy", py="samples.py:Samples.to_numpy", mode="conv", part="method", cls="Samples", method="to_numpy"),
+    dict(name="smc_to_namespace", py="samples.py:SMCSamples.to_namespace", mode="conv", part="method", cls="SMCSamples", method="to_namespace"),
+    dict(name="smc_to_numpy", py="samples.py:SMCSamples.to_numpy", mode="conv", part="method", cls="SMCSamples", method="to_numpy"),
+    dict(name="conv_dispatch", py="samples.py:BaseSamples.to_numpy", mode="conv", part="dispatch"),
     # the checkpoint state dictionary (ninth vocabulary: state2lean.py)
     dict(name="base_build_checkpoint_state", py="samplers/base.py:Sampler.build_checkpoint_state", mode="state", part="base_build"),
     dict(name="smc_checkpoint_extra_state", py="samplers/smc/base.py:SMCSampler._checkpoint_extra_state", mode="state", part="smc_extra"),
@@ -201,6 +211,8 @@ GROUPS = {
     "SrcEval": (["EvalOps"], ["sampler_log_likelihood", "draw_initial_samples", "importance_eval", "mcmc_target_eval", "smc_target_eval",
                               "minipcn_mutate_eval", "emcee_mutate_eval"]),
     "SrcFile": (["FileOps"], ["fit_file_block", "sample_pre_block", "sample_post_block"]),
+    "SrcConv": (["ConvOps"], ["conv_post_init", "base_to_numpy", "base_to_namespace", "base_from_samples", "samples_to_namespace", "samples_to_numpy",
+                              "smc_to_namespace", "smc_to_numpy", "conv_dispatch"]),
     "SrcState": (["StateOps"], ["base_build_checkpoint_state", "smc_checkpoint_extra_state", "smc_build_checkpoint_state",
                                 "base_restore_from_checkpoint", "smc_restore_from_checkpoint"]),
     "SrcCtx": (["CtxOps"], ["pool_enter", "pool_exit", "auto_enter", "auto_finally"]),
